@@ -69,7 +69,7 @@ def _significantly_changed(old: Comparable, new: Comparable) -> bool:
         return new.pending_update or old.values.__ne__(new.values)
 
     if isinstance(old, SupportsFloat) and isinstance(new, SupportsFloat):
-        return not math.isclose(old, new, abs_tol=TOLERANCE)
+        return not math.isclose(old, new, rel_tol=0.0, abs_tol=TOLERANCE)
 
     return old.__ne__(new)
 
